@@ -54,6 +54,18 @@ class G:
         return ["P", tag, tempo] + [self.tree(depth, kind="S") for _ in range(n)]
 
 
+def anonymise(t):
+    """all leaves lose their label (-1 = no `name` attribute): distinct leaves of equal length then compare equal with ==,
+    as the notes of a real score do (list.index / list.remove / `in` by value pick the first equal one)"""
+    if t[0] == "L":
+        if int(t[2]) < 1000:
+            t[2] = -1
+        return t
+    for c in t[3:]:
+        anonymise(c)
+    return t
+
+
 # ---------------------------------------------------------------- tree utilities (on s-expr trees)
 def dur(t):
     if t[0] == "L":
